@@ -45,6 +45,10 @@ func (r Rng) randomIDList(w Win, hDepth, vDepth int64, n int, sp bool) []ID {
 func (r Rng) relative(b ID, hDepth, vDepth int64) ID {
 	h := r.In(0, hDepth)
 	v := r.In(0, vDepth)
+	return r.relativeAt(b, h, v)
+}
+
+func (r Rng) relativeAt(b ID, h, v int64) ID {
 	id := ID{H: h, V: v}
 	id.X = rescale(b.X, b.H, h, r)
 	id.Y = rescale(b.Y, b.H, h, r)
@@ -80,6 +84,26 @@ func zoomCost(ids []ID, h, v int64) int64 {
 
 func driveZoom(t *Tracer, r Rng, n int) {
 	for i := 0; i < n; i++ {
+		if i%100 == 7 { // a large refinement of one voxel (up to 4^8 or 2^14 descendants)
+			hD, vD := r.In(6, 20), r.In(6, 20)
+			w := r.randomWindow(hD, vD, false)
+			var id ID
+			var h, v int64
+			if r.Chance(0.5) {
+				dh := r.In(6, 8)
+				id = r.randomIDAt(w, r.In(0, hD-dh), r.In(0, vD))
+				h, v = id.H+dh, r.In(0, id.V)
+			} else {
+				dv := r.In(9, 14)
+				if dv > vD {
+					dv = vD
+				}
+				id = r.randomIDAt(w, r.In(0, hD), r.In(0, vD-dv))
+				h, v = r.In(0, id.H), id.V+dv
+			}
+			evChangeZoomExt(t, w, []ID{id}, h, v)
+			continue
+		}
 		switch r.Intn(10) {
 		case 0, 1, 2, 3, 4:
 			hD, vD := r.In(0, 8), r.In(0, 8)
@@ -115,8 +139,11 @@ func driveZoom(t *Tracer, r Rng, n int) {
 			d := r.In(0, 28)
 			w := r.randomWindow(d, d, false)
 			id := r.randomID(w, d, d)
-			zo := r.In(maxI(0, id.H-28), minI(d, id.H+5))
-			evHorizontalZoom(t, w, id, zo, r.Chance(0.5))
+			if r.Chance(0.5) {
+				evHorizontalZoom(t, w, id, r.In(0, d), true) // corners only: any zoom difference
+			} else {
+				evHorizontalZoom(t, w, id, r.In(maxI(0, id.H-28), minI(d, id.H+5)), false)
+			}
 		default:
 			d := r.In(0, 28)
 			w := r.randomWindow(d, d, false)
